@@ -34,7 +34,8 @@ def plan(tier):
                  (3, [("dense", 1, 3)], CONF_Q[::2] + CONF_Q[8:9]),
                  (2, [("near", 2, 3)], CONF_Q[::2]), (3, [("near", 2, 2)], CONF_Q[4:8])]
     else:
-        specs = [(2, [("dense", 1, 6)], CONF_T), (2, [("bounded", 3, 7, 9)], CONF_Q[::2]),
+        specs = [(2, [("dense", 1, 5)], CONF_T), (2, [("dense", 6, 6)], CONF_Q[::2] + [CONF_Q[5]]),
+                 (2, [("bounded", 3, 7, 9)], CONF_Q[::2]),
                  (3, [("dense", 1, 4)], CONF_Q[::2]),
                  (2, [("near", 2, 3)], CONF_Q), (2, [("near", 4, 4)], CONF_Q[::3]),
                  (3, [("near", 2, 2)], CONF_Q[4:8])]
